@@ -27,3 +27,129 @@ def chain (pts : List (Pt K)) : List (Pt K) := (pts.foldl pushPt []).reverse
 def hullCore (pts : List (Pt K)) : List (Pt K) := (chain pts).dropLast ++ chain pts.reverse
 end
 end TW
+
+/-!
+## The full `convex_hull` as coded, and the small boxes of `RefCatalog._calc_cat_convex_hull`
+
+`points = sorted(set(zip(x, y)))` is an insertion sort that drops a point equal to one already
+present (Python's `set` keeps the element seen first); equality of coordinates is
+"neither `<` nor `>`".
+-/
+namespace TW
+section
+variable {K : Type} [Add K] [Sub K] [Mul K] [Div K] [Neg K] [LT K] [DecidableLT K] [NatCast K]
+
+/-- the order of Python tuples `p < q` -/
+def lexLtB (p q : Pt K) : Bool :=
+  if p.1 < q.1 then true else if q.1 < p.1 then false else decide (p.2 < q.2)
+
+/-- insert `p` into a strictly sorted list; a point equal to `p` already present is kept and
+`p` is dropped -/
+def insertPt (p : Pt K) : List (Pt K) → List (Pt K)
+  | [] => [p]
+  | q :: rest =>
+      if lexLtB p q then p :: q :: rest
+      else if lexLtB q p then q :: insertPt p rest
+      else q :: rest
+
+/-- `sorted(set(zip(x, y)))` -/
+def sortDedupe (pts : List (Pt K)) : List (Pt K) := pts.foldl (fun acc p => insertPt p acc) []
+
+/-- the vertex list before the `min_separation` loop: `([], [])` for no points, the point itself
+for one distinct point, otherwise `lower[:-1] + upper` (which closes at the first vertex; two
+distinct points give `[p0, p1, p0]`) -/
+def hullRaw (pts : List (Pt K)) : List (Pt K) :=
+  match sortDedupe pts with
+  | [] => []
+  | [p] => [p]
+  | p :: q :: rest => hullCore (p :: q :: rest)
+
+/-- `a <= b` through the only comparison the scalar type offers -/
+def leB (a b : K) : Bool := !decide (b < a)
+
+def absP (x : K) : K := if x < ((0 : Nat) : K) then -x else x
+
+/-- `abs(ptx[k] - ptx[k+1]) <= sep and abs(pty[k] - pty[k+1]) <= sep` -/
+def closeTo (sep : K) (a b : Pt K) : Bool :=
+  leB (absP (a.1 - b.1)) sep && leB (absP (a.2 - b.2)) sep
+
+/-- the part of the separation loop behind the first vertex: the loop
+`for k in range(n - 2, 0, -1): if close(pt[k], pt[k+1]): idx.pop(k)` compares every interior
+vertex with its **original** successor (`ptx`, `pty` are not updated inside the loop and the
+indices above `k` that were popped do not move index `k`), so vertex `k` (`1 ≤ k ≤ n-2`) is
+dropped exactly when it is close to vertex `k+1`; the last (closing) vertex is never tested -/
+def mergeTail (sep : K) : List (Pt K) → List (Pt K)
+  | a :: b :: rest =>
+      if closeTo sep a b then mergeTail sep (b :: rest) else a :: mergeTail sep (b :: rest)
+  | l => l
+
+/-- the whole separation loop: index `0` is never visited -/
+def mergeSep (sep : K) : List (Pt K) → List (Pt K)
+  | [] => []
+  | v0 :: rest => v0 :: mergeTail sep rest
+
+inductive HullErr where
+  | negSeparation
+  deriving Repr, DecidableEq
+
+/-- `convex_hull(x, y, wcs=None, min_separation=sep)`; the argument check comes first, the
+0- and 1-point returns come before the loop (on them `mergeSep` is the identity anyway) -/
+def convexHull (sep : Option K) (pts : List (Pt K)) : Except HullErr (List (Pt K)) :=
+  match sep with
+  | none => .ok (hullRaw pts)
+  | some s =>
+      if s < ((0 : Nat) : K) then .error .negSeparation
+      else
+        match hullRaw pts with
+        | [] => .ok []
+        | [p] => .ok [p]
+        | h => .ok (mergeSep s h)
+
+/-- executable check that every cyclically consecutive triple of a closed vertex list
+(`h.head = h.last`) is a strict left turn -/
+def turnsLeftB : List (Pt K) → Bool
+  | a :: b :: c :: rest => decide (((0 : Nat) : K) < cross a b c) && turnsLeftB (b :: c :: rest)
+  | _ => true
+
+def isStrictlyConvexCCW (h : List (Pt K)) : Bool := turnsLeftB (h ++ (h.drop 1).take 1)
+
+/-! ### `RefCatalog._calc_cat_convex_hull`: catalogs of one and of two (or collinear) sources -/
+
+/-- `tol = 0.5 * np.deg2rad(footprint_tol / 3600.0)`; `d2r` is the constant `π/180` -/
+def boxTol (d2r ftol : K) : K := (ftol / ((3600 : Nat) : K) * d2r) / ((2 : Nat) : K)
+
+/-- one source: a square of half-width `tol`, closed -/
+def smallBox1 (tol : K) (p : Pt K) : List (Pt K) :=
+  [(p.1 - tol, p.2 - tol), (p.1 - tol, p.2 + tol), (p.1 + tol, p.2 + tol), (p.1 + tol, p.2 - tol),
+   (p.1 - tol, p.2 - tol)]
+
+/-- two sources (`xv[0]`, `xv[1]` of the hull): a rectangle of half-width `tol` about the
+segment, extended by `tol` beyond both ends, closed; `(vx, vy)` is the unit vector of the pair -/
+def smallBox2 [HasSqrt K] (tol : K) (p0 p1 : Pt K) : List (Pt K) :=
+  let vx0 := p1.1 - p0.1
+  let vy0 := p1.2 - p0.2
+  let norm := HasSqrt.sqrt (vx0 * vx0 + vy0 * vy0)
+  let vx := vx0 / norm
+  let vy := vy0 / norm
+  [(p0.1 - (vx - vy) * tol, p0.2 - (vy + vx) * tol),
+   (p0.1 - (vx + vy) * tol, p0.2 - (vy - vx) * tol),
+   (p1.1 + (vx - vy) * tol, p1.2 + (vy + vx) * tol),
+   (p1.1 + (vx + vy) * tol, p1.2 + (vy - vx) * tol),
+   (p0.1 - (vx - vy) * tol, p0.2 - (vy + vx) * tol)]
+
+/-- `a == b` through the only comparison the scalar type offers -/
+def eqB (a b : K) : Bool := !decide (a < b) && !decide (b < a)
+
+/-- the branch on `len(xv)` after `convex_hull(x, y, min_separation=1e-11)` in the ad-hoc
+tangent plane: 1 vertex, or the degenerate closed one-point list `[p0, p0]` that the separation
+loop leaves of two almost coincident sources → square; 2 or 3 vertices (two distinct points, or
+any number of collinear ones: the hull is `[p0, p1, p0]`) → rectangle; otherwise the hull -/
+def refFootprint [HasSqrt K] (tol : K) (hull : List (Pt K)) : List (Pt K) :=
+  match hull with
+  | [p] => smallBox1 tol p
+  | [p0, p1] => if eqB p0.1 p1.1 && eqB p0.2 p1.2 then smallBox1 tol p0 else smallBox2 tol p0 p1
+  | [p0, p1, _] => smallBox2 tol p0 p1
+  | h => h
+
+end
+end TW
